@@ -58,6 +58,13 @@ func checkC15(w *World, r *Recorder) propInfo {
 	for _, n := range []string{"doSerializeStructToCBOR", "doSerializeStructToJSON"} {
 		c15FieldEncoding(w, r, n, "C15-H11")
 	}
+	// H12: the all-empty struct serialises to {} in JSON
+	if sfj := w.encMapType("JSON"); sfj != nil {
+		c15JSONFraming(w, r, sfj)
+	} else {
+		r.Undecide("C15-H12", "structFieldsJSON", "-", "type not found")
+	}
+	r.Floor("C15-H12", 1)
 	return info
 }
 
@@ -1951,5 +1958,92 @@ func c15FieldEncoding(w *World, r *Recorder, name, rule string) {
 	}
 	if n == 0 {
 		r.Undecide(rule, name+"#stored-value", w.FnPos(fn), "no store into the raw map found in the walker")
+	}
+}
+
+// ---- H12 ----
+
+// c15JSONFraming: the all-empty struct serialises to "{}" (the round-trip
+// clause names it, and the plain marshaller gives exactly that): on every path
+// of the JSON map's writer that returns successfully with no keys, the bytes
+// written to the output — constant arguments of the buffer's Write* methods,
+// in order — are '{' '}' and nothing else, and nothing is stored into the
+// output's bytes afterwards (an entry separator patched over the last byte
+// has nothing to patch when there are no entries).
+func c15JSONFraming(w *World, r *Recorder, sf *types.Named) {
+	fn := w.MethodImpl(sf, "ToJSON")
+	if fn == nil {
+		r.Undecide("C15-H12", "ToJSON", "-", "not found")
+		return
+	}
+	s := w.SummariseWith(fn, func(e *Engine) { e.MaxSteps = 20000 })
+	if ok, why := s.Complete(); !ok {
+		r.Undecide("C15-H12", "ToJSON", w.FnPos(fn), why)
+		return
+	}
+	recv := fn.Params[0].Name()
+	ei := errIndex(fn)
+	n := 0
+	for _, p := range s.Paths {
+		if p.Ret == nil {
+			continue
+		}
+		if _, nl := errOf(p, ei); nl == 1 {
+			continue
+		}
+		set, has := p.St.terms["len("+recv+".Keys)"]
+		if !has || !set.equal(iset{{0, 0}}) {
+			continue
+		}
+		n++
+		var out []byte
+		known := true
+		patched := ""
+		for _, ev := range p.St.events {
+			switch {
+			case ev.Kind == "call" && (strings.HasPrefix(ev.Callee, "(*bytes.Buffer).Write") || strings.HasPrefix(ev.Callee, "(*strings.Builder).Write")) && len(ev.Args) == 2:
+				a := ev.Args[1]
+				switch a.Kind {
+				case KSeq:
+					for _, el := range a.Elems {
+						if el.Kind != KInt {
+							known = false
+						}
+						out = append(out, byte(el.K))
+					}
+				case KStr:
+					out = append(out, a.S...)
+				case KInt:
+					out = append(out, byte(a.K))
+				default:
+					known = false
+				}
+			case ev.Kind == "store" && (strings.Contains(ev.Loc, ".Bytes(") || strings.Contains(ev.Loc, "(*bytes.Buffer)")):
+				patched = ev.Loc
+			case ev.Kind == "call" && (strings.HasPrefix(ev.Callee, "(*bytes.Buffer).Truncate") || strings.HasPrefix(ev.Callee, "(*bytes.Buffer).Reset")):
+				patched = ev.Callee
+			}
+		}
+		pkey := "ToJSON#no-keys/" + fmt.Sprint(n)
+		switch {
+		case patched != "":
+			r.Refute("C15-H12", pkey, w.InstrPos(p.Ret), "with no entries the output is modified after it was written ("+patched+"): the all-empty struct does not serialise to {}")
+		case !known || len(out) == 0:
+			// an append-built result the engine evaluated to a constant sequence
+			if len(p.Rets) > 0 && p.Rets[0].Kind == KSeq {
+				var b []byte
+				for _, el := range p.Rets[0].Elems {
+					b = append(b, byte(el.K))
+				}
+				r.Check(string(b) == "{}", "C15-H12", pkey, w.InstrPos(p.Ret), "no entries → {}", fmt.Sprintf("with no entries the writer returns %q, not {}", b))
+			} else {
+				r.Undecide("C15-H12", pkey, w.InstrPos(p.Ret), "the bytes written with no entries are not constant writes to a bytes.Buffer / strings.Builder")
+			}
+		default:
+			r.Check(string(out) == "{}", "C15-H12", pkey, w.InstrPos(p.Ret), "no entries → {}", fmt.Sprintf("with no entries the writer emits %q, not {}", out))
+		}
+	}
+	if n == 0 {
+		r.Undecide("C15-H12", "ToJSON#no-keys", w.FnPos(fn), "no successful path with an empty key list found")
 	}
 }
